@@ -750,8 +750,8 @@ func (ex *Exec) fmtOne(iv *IfaceV, depth int) {
 			mt, _ := iv.T.Underlying().(*types.Map)
 			for _, k := range x.sortedKeys() {
 				e := x.Entries[k]
-				if mt != nil {
-					ex.fmtOne(&IfaceV{T: mt.Elem(), V: e.V}, depth+1)
+				if mt != nil && ex.entryPresent(e) {
+					ex.fmtOne(&IfaceV{T: mt.Elem(), V: ex.entryVal(e)}, depth+1)
 				}
 			}
 		}
